@@ -174,6 +174,7 @@ def run_standard(case):
     except BaseException as e:
         res["error"] = f"{type(e).__name__}: {e}"
         res["traceback"] = traceback.format_exc()[-1500:]
+        res["points_at_error"] = int(model.b_points)
     finally:
         mon.disarm()
         try:
